@@ -25,6 +25,7 @@
   string literals of Model/Req.lean; no axiom beyond `propext`/`Quot.sound` is involved).
 -/
 import FwdVerif.Lemmas.C18f
+import FwdVerif.Lemmas.C18g
 
 namespace FwdVerif
 namespace C18
@@ -996,6 +997,127 @@ theorem c18_config_derived_tag_witness :
           2 0 reqPlain).map isForwarded = [true, true] := by
   refine ⟨fun h => ?_, by decide +kernel, by decide +kernel⟩
   exact absurd (h (a₁ := true) (a₂ := false) rfl) (by decide)
+
+/-! ## I. The status of a loop refusal does not depend on what else the chain holds
+
+  The refusal travels to `errorResponse` as `martian.ErrorStatus{Status: 400}` whose TEXT is
+  `"via: detected request loop, header contains " ++ chain` — the chain being bytes that other hops (or
+  the client) wrote.  `loopClass https chain` walks the code's handler list (Model/C12.lean, lifted to
+  errors with a text in Model/C18Err.lean) over that error. -/
+
+/-- Clause "answers 400", classification step: for EVERY chain text and either request scheme the loop
+    refusal is claimed by `handleMartianErrorStatus` with the status the error carries. -/
+theorem c18_loop_status_independent_of_chain_text (https : Bool) (chain : Bytes) :
+    loopClass https chain = (400, "martian_error") := rfl
+
+example : loopClass true (bs "1.1 edge (last error: malformed HTTP response), 1.1 fwd-0123456789abcdef0123") =
+    (400, "martian_error") := c18_loop_status_independent_of_chain_text _ _
+
+/-- … the verdict Model/C12.lean gives the text-less error kind `martianStatus 400`: keeping the text adds
+    nothing the code's handlers react to. -/
+theorem c18_loop_class_is_c12_martian (https : Bool) (chain : Bytes) :
+    loopClass https chain = C12.classify (.martianStatus 400) := rfl
+
+/-- Whenever the Via modifier refuses, the error it returns embeds the whole received chain — the own
+    tag and everything the other hops wrote — and is classified 400. -/
+theorem c18_loop_refusal_classified {cfg : Cfg} {m : Nat} {h : C16.HMap} (https : Bool)
+    (hl : viaStep cfg m h = none) :
+    loopClass https (viaChainOf h) = (400, "martian_error") ∧
+      isInfix cfg.tag (loopErr (viaChainOf h)).text = true ∧
+      viaChainOf h <:+ (loopErr (viaChainOf h)).text := by
+  refine ⟨rfl, ?_, List.suffix_append _ _⟩
+  have hi : isInfix cfg.tag (viaChainOf h) = true := by
+    unfold viaStep at hl
+    by_cases hc : (!(viaChainOf h).isEmpty && isInfix cfg.tag (viaChainOf h)) = true
+    · exact (Bool.and_eq_true_iff.mp hc).2
+    · simp only [hc] at hl
+      exact absurd hl (by simp)
+  exact (isInfix_iff _ _).mpr (((isInfix_iff _ _).mp hi).trans (List.suffix_append _ _).isInfix)
+
+example : viaStep cfgW 1 [(bs "Via", [bs "1.1 edge (Bad Gateway), 1.1 fwd-0123456789abcdef0123"])] = none := by
+  decide +kernel
+
+/-- Why: a martian `ErrorStatus` with a non-zero status is classified alike for every text, in every
+    handler list whose handlers BEFORE `handleMartianErrorStatus` never read the text — whatever the
+    handlers after it do. -/
+theorem c18_martian_status_text_blind {pre : List THandler} (hp : ∀ h ∈ pre, TextBlind h)
+    (post : List THandler) (https : Bool) (s : C12.ErrShape) {st : Nat}
+    (hs : s.errorStatus = some st) (h0 : st ≠ 0) (t t' : Bytes) :
+    classifyT (pre ++ lift C12.handleMartianErrorStatus :: post) https ⟨s, t⟩ =
+      classifyT (pre ++ lift C12.handleMartianErrorStatus :: post) https ⟨s, t'⟩ := by
+  have hg : ∀ u, lift C12.handleMartianErrorStatus https ⟨s, u⟩ = (st, "martian_error") := by
+    intro u
+    simp only [lift, TextErr.fullShape, C12.handleMartianErrorStatus, hs]
+  unfold classifyT
+  rw [firstVerdictT_blind_prefix hp _ post https s t t' ((hg t).trans (hg t').symm) (by rw [hg t]; exact h0)]
+
+/-- … and the code's list is such a list: the six handlers consulted before
+    `handleMartianErrorStatus` are type tests (`errors.As`), the only reader of the text
+    (`handleStatusText`) comes after it. -/
+theorem c18_code_prefix_text_blind :
+    handlersT = handlersT.take 6 ++ lift C12.handleMartianErrorStatus :: handlersT.drop 7 ∧
+      ∀ h ∈ handlersT.take 6, TextBlind h := by
+  refine ⟨rfl, ?_⟩
+  intro h hh
+  have hm : h ∈ [lift C12.handleWindowsNetError, lift C12.handleNetError, lift C12.handleTLSRecordHeader,
+      lift C12.handleTLSCertificateError, lift C12.handleTLSECHRejectionError, lift C12.handleTLSAlertError] := hh
+  simp only [List.mem_cons, List.not_mem_nil, or_false] at hm
+  rcases hm with rfl | rfl | rfl | rfl | rfl | rfl <;> (intro https s t t'; rfl)
+
+example : ¬ TextBlind (lift C12.handleStatusText) := by
+  intro h
+  have := h true {} (bs "Bad Gateway") (bs "x")
+  revert this
+  decide +kernel
+
+/-- The text of a loop refusal never EQUALS a status text (it begins with "via: …"), so the one handler
+    of the code that reads the text passes on it for every chain, wherever it stands in the list — also
+    for the `https` requests it applies to (intercepted sessions, `https://` absolute-form). -/
+theorem c18_loop_text_is_no_status_text (https : Bool) (chain : Bytes) :
+    statusTextOf (loopErrText chain) = none ∧
+      lift C12.handleStatusText https (loopErr chain) = C12.pass ∧
+      classifyT (handlersWith 0 (lift C12.handleStatusText)) https (loopErr chain) = (400, "martian_error") := by
+  have h1 := statusTextOf_loopErrText chain
+  have h2 : lift C12.handleStatusText https (loopErr chain) = C12.pass := by
+    simp only [lift, TextErr.fullShape, loopErr, C12.handleStatusText, h1]
+    cases https <;> rfl
+  refine ⟨h1, h2, ?_⟩
+  have : firstVerdictT (handlersWith 0 (lift C12.handleStatusText)) https (loopErr chain) =
+      firstVerdictT handlersT https (loopErr chain) := by
+    show firstVerdictT ([lift C12.handleStatusText] ++ handlersT) https (loopErr chain) = _
+    exact firstVerdictT_pass_prefix _ _ _ (by
+      intro h hh
+      rw [List.mem_singleton.mp hh]
+      exact h2)
+  unfold classifyT
+  rw [this]
+  rfl
+
+/-- A handler consulted AFTER `handleMartianErrorStatus` cannot change the answer to a loop, whatever it
+    does with the text. -/
+theorem c18_handler_after_martian_harmless (g : THandler) (https : Bool) (chain : Bytes) :
+    classifyT (handlersWith 7 g) https (loopErr chain) = (400, "martian_error") := rfl
+
+/-- Witness (NOT the code): a handler that recognises transport errors by a phrase of their text, put
+    next to the other transport-level handlers — i.e. before `handleMartianErrorStatus` —, lets text
+    written by ANOTHER hop decide the status: both requests carry this instance's element and are
+    refused by the modifier, the one whose chain also holds a comment with the phrase is answered 502;
+    a status-text test loosened to a suffix test does the same to an `https` request whose chain ends in
+    a status text.  The code's list answers 400 to all of them. -/
+theorem c18_text_handler_before_martian_witness :
+    let malformed := containsHandler (bs "malformed HTTP") 502 "malformed_response"
+    let plain := bs "1.1 edge, 1.1 fwd-0123456789abcdef0123"
+    let text := bs "1.1 edge (last error: malformed HTTP response), 1.1 fwd-0123456789abcdef0123"
+    let tail := bs "1.1 fwd-0123456789abcdef0123, Bad Gateway"
+    (viaStep cfgW 1 [(bs "Via", [plain])] = none ∧ viaStep cfgW 1 [(bs "Via", [text])] = none ∧
+        viaStep cfgW 1 [(bs "Via", [tail])] = none) ∧
+      classifyT (handlersWith 6 malformed) false (loopErr plain) = (400, "martian_error") ∧
+      classifyT (handlersWith 6 malformed) false (loopErr text) = (502, "malformed_response") ∧
+      classifyT (handlersWith 6 statusSuffixHandler) true (loopErr plain) = (400, "martian_error") ∧
+      classifyT (handlersWith 6 statusSuffixHandler) true (loopErr tail) = (502, "https_status_text") ∧
+      classifyT (handlersWith 6 (suffixHandler (bs "EOF") 502 "unexpected_eof")) false
+          (loopErr (bs "1.1 fwd-0123456789abcdef0123, 1.1 p (unexpected EOF")) = (502, "unexpected_eof") := by
+  decide +kernel
 
 end C18
 end FwdVerif
